@@ -16,7 +16,7 @@ from dsim import domgen, domworld, gen, pipe
 ID = 'C18'
 LEVEL = 'exploration'
 CLASSES = [('interleaved', 1)]
-TIERS = {'quick': {'runs': 1600, 'chunk': 25}}
+TIERS = {'quick': {'chunk': 25}}
 RULE = ('seeded histories of 2-4 actors x 1-2 live trees (20-80 interleaved '
         'steps): constructing, add_change/add_file, typed assignments, '
         'mutation through returned dicts, to_bytes, write through a shared '
